@@ -17,14 +17,19 @@ import (
 
 // BehResult is what a child reports for one behaviour.
 type BehResult struct {
-	I          int         `json:"i"`
-	Steps      int         `json:"steps"`
-	Nontrivial bool        `json:"nontrivial"`
-	Mismatches []Mismatch  `json:"mismatches,omitempty"`
-	Sample     interface{} `json:"sample,omitempty"`
+	I          int            `json:"i"`
+	Steps      int            `json:"steps"`
+	Nontrivial bool           `json:"nontrivial"`
+	Mismatches []Mismatch     `json:"mismatches,omitempty"`
+	Sample     interface{}    `json:"sample,omitempty"`
 	Extra      map[string]int `json:"extra,omitempty"`
-	Start      bool        `json:"start,omitempty"` // heartbeat: behaviour i is starting
+	Start      bool           `json:"start,omitempty"`   // heartbeat: behaviour i is starting
+	Recycle    bool           `json:"recycle,omitempty"` // the child must be replaced after this behaviour (leaked goroutines)
 }
+
+// MaxBadBehaviours stops a replay early: once that many behaviours have
+// failed the verdict is clear and broken trees must not cost hours.
+var MaxBadBehaviours = 40
 
 // BehFunc runs one behaviour against the real code. It may panic.
 type BehFunc func(i int, line []byte, r *BehResult)
@@ -51,6 +56,17 @@ func Isolated(family, in string, res *Result, fn BehFunc, perBehTimeout time.Dur
 		last, died, sig, stderr, err := spawn(fmt.Sprintf("%d", from), res, perBehTimeout)
 		if err != nil {
 			return err
+		}
+		if os.Getenv("VH_DEBUG") != "" {
+			fmt.Fprintf(os.Stderr, "%s spawn from=%d last=%d died=%v sig=%s beh=%d bad=%d\n", time.Now().Format("15:04:05"), from, last, died, sig, res.Behaviours, res.badBeh)
+		}
+		if res.BadBehaviours() >= MaxBadBehaviours {
+			res.Extra["stopped_early_at"] = last
+			break
+		}
+		if !died && sig == "recycle" {
+			from = last + 1
+			continue
 		}
 		if !died {
 			break
@@ -129,9 +145,9 @@ func spawn(spec string, res *Result, perBeh time.Duration) (last int, died bool,
 	rd := bufio.NewReaderSize(stdout, 1<<20)
 	for {
 		line, rerr := rd.ReadBytes('\n')
-		if len(line) > 1 {
+		if len(line) > 1 && bytes.HasPrefix(line, []byte(protoMark)) {
 			var br BehResult
-			if json.Unmarshal(line, &br) == nil {
+			if json.Unmarshal(line[len(protoMark):], &br) == nil {
 				mu.Lock()
 				lastBeat = time.Now()
 				mu.Unlock()
@@ -145,6 +161,12 @@ func spawn(spec string, res *Result, perBeh time.Duration) (last int, died bool,
 					}
 					for _, m := range br.Mismatches {
 						res.Add(m)
+					}
+					if len(br.Mismatches) > 0 {
+						res.badBeh++
+						if res.badBeh >= MaxBadBehaviours {
+							_ = syscall.Kill(-cmd.Process.Pid, syscall.SIGKILL)
+						}
 					}
 					if br.Sample != nil {
 						res.Sample(br.Sample, 3)
@@ -170,8 +192,14 @@ func spawn(spec string, res *Result, perBeh time.Duration) (last int, died bool,
 	mu.Lock()
 	h := hung
 	mu.Unlock()
+	if res.badBeh >= MaxBadBehaviours {
+		return last, false, "", stderr, nil
+	}
 	if h {
 		return last, true, "hang/behaviour", stderr, nil
+	}
+	if ee, ok := werr.(*exec.ExitError); ok && ee.ExitCode() == 3 {
+		return last, false, "recycle", stderr, nil
 	}
 	if werr != nil {
 		return last, true, crashSig(stderr), stderr, nil
@@ -208,6 +236,10 @@ func crashSig(stderr string) string {
 	return kind + "/" + strings.TrimPrefix(s, "panic/")
 }
 
+// protoMark prefixes protocol lines on the child's stdout (the code under test
+// may log to stdout as well).
+const protoMark = "@@VH "
+
 func runChild(in, spec string, fn BehFunc) error {
 	only := strings.HasSuffix(spec, ":only")
 	var from int
@@ -218,12 +250,20 @@ func runChild(in, spec string, fn BehFunc) error {
 		if i < from || (only && i != from) {
 			return nil
 		}
+		_, _ = w.WriteString(protoMark)
 		_ = enc.Encode(BehResult{I: i, Start: true})
 		_ = w.Flush()
 		r := &BehResult{I: i}
 		fn(i, line, r)
+		_, _ = w.WriteString(protoMark)
 		_ = enc.Encode(r)
-		return w.Flush()
+		if err := w.Flush(); err != nil {
+			return err
+		}
+		if r.Recycle && !only {
+			os.Exit(3)
+		}
+		return nil
 	})
 }
 
